@@ -848,6 +848,17 @@ def parse_datum(s, i):
     return e
 
 
+def recognise_without_bar_delimiter(s):
+    """the same recogniser if `|` did not terminate tokens (used only to name the root cause of a failing text)"""
+    global DELIM
+    saved = DELIM
+    DELIM = saved - {'|'}
+    try:
+        return recognise(s)
+    finally:
+        DELIM = saved
+
+
 def recognise(s):
     """-> (k, eof): the first k data of s are certainly valid R7RS data (both readers must return equal values for
     them); eof: after them only intertoken space remains, so the next read must return an eof object."""
@@ -1239,8 +1250,18 @@ def _run_once(job, d, trace=False):
     path = os.path.join(d, "job.scm")
     common.write_file(path, job_source(job, trace))
     env = {"VERIF_POISON": "1"} if job["variant"] == "asan" else None
-    res = common.evalbatch(job["variant"], [path], timeout=job.get("timeout", 1500), cwd=d, env=env)
-    return res, parse_output(res.out)
+    for attempt in range(6):
+        res = common.evalbatch(job["variant"], [path], timeout=job.get("timeout", 1500), cwd=d, env=env)
+        p = parse_output(res.out)
+        # the (import ...) form (form 0) failing, or the harness not starting, means the variant directory was being
+        # rebuilt under us (/repo or /verif/harness changed during the run): wait for the build lock and run again
+        broken = any(e.startswith(";;EXC 0 ") or e.startswith(";;READ-EXC") for e in p["exc"]) or \
+            (res.rc in (3, 126, 127) and p["selftest"] is None) or ("error while loading shared libraries" in res.out)
+        if not broken:
+            return res, p
+        import time as _t
+        _t.sleep(3 + 3 * attempt)
+    raise common.HarnessError("C08: driver could not be started (variant %s): %s" % (job["variant"], res.out[-500:]))
 
 
 def merge_parsed(acc, p):
@@ -1348,7 +1369,7 @@ def classify(key, descr, text, got):
         return "srfi38-writer-chain-of-shared-tails-emits-label-dot-reference"
     if space == "text":
         if kind.split("(")[0] in ("native-rejects", "library-rejects", "differ", "native-no-eof", "library-no-eof"):
-            if re.search(r'[^\s()";|\'`,]\|', text) and not re.search(r'"[^"]*\|', text) and not text.startswith('|'):
+            if recognise_without_bar_delimiter(text) != recognise(text):
                 return "vertical-line-is-not-a-token-delimiter" + ("(both readers deviate identically)" if "readers-agree" in kind else "(readers disagree)")
     return "other:" + ":".join(f[:3])
 
@@ -1405,7 +1426,7 @@ def replay_program(space, descr, text):
 
 
 def replay(path):
-    res = common.evalbatch("opt", [path], timeout=120)
+    res = common.evalbatch("opt", [os.path.abspath(path)], timeout=120)
     print(res.out)
     return 1 if ("FAIL" in res.out or res.rc != 0) else 0
 
@@ -1583,13 +1604,22 @@ def main(tier, replay_path=None):
         desc["reproduced_in_fresh_process"] = rerun
         chk.violation(desc, what + (" | also: " + more if more else "") + (" | reproduced alone: %s" % rerun),
                       replay_program(space, descr, text))
+    crash_groups = {}
     for meta, c in crashes_all:
         fr = c.get("asan")
         g = "crash:" + (fr[0] + ":" + ",".join(f[0] for f in fr[1][:3]) if fr else ("timeout" if c.get("timed_out") else "rc=%s" % c.get("rc")))
-        desc = {"op": g, "group": g, "space": meta["space"], "variant": meta["variant"], "crash": True, "text": c.get("text"), "rc": c.get("rc")}
+        crash_groups.setdefault(g, []).append((meta, c))
+    for g, lst in crash_groups.items():
+        lst.sort(key=lambda mc: (len(mc[1].get("text") or "zzzzzz"), mc[1].get("text") or ""))
+        meta, c = lst[0]
         txt = c.get("text")
-        chk.violation(desc, "%s in %s job %s at text %r: %s" % (g, meta["variant"], {k: meta[k] for k in meta if k != "size"}, txt, c["tail"][-400:]),
-                      replay_program("text", txt, txt) if txt is not None else None)
+        texts = sorted(set(repr(mc[1].get("text")) for mc in lst))
+        desc = {"op": g, "group": g, "space": meta["space"], "variant": meta["variant"], "crash": True, "text": txt, "rc": c.get("rc"),
+                "n": len(lst), "texts": texts[:40]}
+        chk.outcomes["FAIL " + g] = len(lst)
+        chk.violation(desc, "%s: the process died (%d cases: %s) in %s job %s; reading text %r: %s" % (
+            g, len(lst), ", ".join(texts[:12]), meta["variant"], {k: meta[k] for k in meta if k != "size"}, txt, c["tail"][-400:]),
+            replay_program("text", txt, txt) if txt is not None else None)
     for meta, p in problems_all:
         chk.violation({"op": "harness-selfcheck", "group": "harness-selfcheck", "space": meta["space"]}, "driver self-check: %s (%s)" % (p[:400], meta))
     tj, tree_total = tree_jobs(tier)
